@@ -16,6 +16,7 @@ func Compile(root *Module) error {
 		pool: make(map[HasDefinitions]struct{}),
 
 		typedefsInProgress: make(map[*Typedef]struct{}),
+		importsCompiled:    make(map[*Module]struct{}),
 	}
 	// loads submodules, imports and then resolve uses with groupings
 	if err := resolve(root); err != nil {
@@ -30,6 +31,9 @@ type compiler struct {
 
 	// typedefs whose type is being resolved, to reject a typedef chain that leads back to itself
 	typedefsInProgress map[*Typedef]struct{}
+
+	// imported modules already visited by compileImport
+	importsCompiled map[*Module]struct{}
 }
 
 func (c *compiler) module(y *Module) error {
@@ -60,6 +64,11 @@ func (c *compiler) module(y *Module) error {
 }
 
 func (c *compiler) compileImport(m *Module) error {
+	// modules may import each other (or themselves), visit each one once
+	if _, seen := c.importsCompiled[m]; seen {
+		return nil
+	}
+	c.importsCompiled[m] = struct{}{}
 	for _, i := range m.identities {
 		if err := c.compile(i); err != nil {
 			return err
